@@ -327,7 +327,10 @@ impl Scenario for C16 {
             let fail_rel = if k + 1 < nsteps && cx.chance(1, 4) { Some(cx.draw(48) as usize) } else { None };
             cx.probe(&format!("{}:{}", msg_kind(&m), if due { kind } else { "no-reply-due" }));
             cx.note(|| format!("step #{k}: {}  far end sends [{kind}] {:?}  failure at op {:?}", show(&m), String::from_utf8_lossy(&line), fail_rel));
-            plan.push(StepPlan { m, line, kind, fail_rel, only_bytes_judged: looks_like_hello });
+            // A message of kind Unknown is not a hello / query / request, whatever bytes it wraps:
+            // no reply is due (the property speaks about message kinds).
+            let _ = looks_like_hello;
+            plan.push(StepPlan { m, line, kind, fail_rel, only_bytes_judged: false });
         }
         cx.event("plan", &plan.iter().map(|s| (stable_hash(&s.m), s.kind, s.fail_rel)).collect::<Vec<_>>());
         cx.set_nontrivial();
@@ -439,6 +442,7 @@ impl Scenario for C18 {
         // test can read the real monotonic clock without going through any seam.
         wire.sim_read_latency_ns = *cx.pick(&[0u64, 520_833, 5_000_000]);
         let real_latency = cx.chance(1, 48);
+        let slow_write = cx.chance(1, 1500);
         let shared = SharedWire::new(wire);
         let port = SimPort::new(shared.clone(), Device::default_odd());
         let mut bus = match SerialSignBus::try_new(port) {
@@ -458,6 +462,11 @@ impl Scenario for C18 {
         let mut spans: Vec<Span> = Vec::new();
         for (i, m) in msgs.iter().enumerate() {
             let o0 = shared.lock().ops.len();
+            if slow_write && matches!(m, Message::SendData(..)) {
+                // the port's write blocks for longer than the pacing delay (real time)
+                shared.lock().real_delay_next_write = Some(Duration::from_millis(32 + cx.draw(8)));
+                cx.probe("data_chunk_write_blocks_longer_than_30ms");
+            }
             if real_latency && matches!(&replies[i], Some(Message::ReportState(_, State::PageLoadInProgress | State::PageShowInProgress))) {
                 shared.lock().real_delay_next_read = Some(Duration::from_millis(2 + cx.draw(3)));
                 cx.probe("reply_with_real_latency");
@@ -647,7 +656,11 @@ impl Scenario for C20 {
         let cs = take(4) as u8;
         let bi = take(12) as usize;
         let baud = if BAUDS[bi] == 0 { *cx.pick(&[14400usize, 1, 250000, 19201, 19199, 0]) } else { BAUDS[bi] };
-        let prior = SimSettings { baud: BaudRate2(baud), char_size: cs, parity, stop_bits: stop, flow, fail_set_baud: false, fail_kind: 0 };
+        let baud_unreported = cx.chance(1, 8);
+        if baud_unreported {
+            cx.probe("prior_speed_unreported");
+        }
+        let prior = SimSettings { baud: BaudRate2(baud), char_size: cs, parity, stop_bits: stop, flow, fail_set_baud: false, fail_kind: 0, baud_unreported };
         let mut dev = Device::new(prior);
         dev.fail = fail;
         dev.fail_kind = cx.draw(crate::port::ERR_KINDS.len() as u64) as usize;
